@@ -78,7 +78,8 @@ def opt_tokens(o):
             toks += K("ON UPDATE") + T(o["on_update"])
         return toks
     if k == "check":
-        return K("CHECK") + paren(I(o["col"]) + T(o["op"]) + N(o["val"]))
+        pre = (K("CONSTRAINT") + I(o["cname"])) if o.get("cname") else []
+        return pre + K("CHECK") + paren(I(o["col"]) + T(o["op"]) + N(o["val"]))
     if k == "comment":
         return K("COMMENT") + L(o["text"])
     raise ValueError(k)
@@ -115,6 +116,8 @@ def column_expect(c):
             e["references"] = ref_expect(o)
         elif k == "check":
             e["check"] = "%s %s %s" % (o["col"], o["op"], o["val"])
+            if o.get("cname"):
+                e["check"] = {"constraint_name": o["cname"], "statement": e["check"]}
         elif k == "comment":
             e["comment"] = o["text"]
     return e
